@@ -279,7 +279,7 @@ int main(int argc, char** argv, const Harness& h) {
     static bool dbg = getenv("SIM_DEBUG") != nullptr;
     Result r = h.execute(spec, dbg);
     if (getenv("SIM_TWICE")) { Result q = h.execute(spec, dbg); if (q.hash != r.hash || q.violated != r.violated) { if (dbg) { for (auto& l : r.tail) printf(" A %s\n", l.c_str()); for (auto& l : q.tail) printf(" B %s\n", l.c_str()); } printf("DIVERGE index=%ld seed=%llu first=%llu second=%llu\n", i, (unsigned long long)spec.seed, (unsigned long long)r.hash, (unsigned long long)q.hash); ndiverge++; } }
-    if (getenv("SIM_REPLAYCHECK")) { RunSpec rs = spec; rs.replay = true; rs.decisions = r.decisions; rs.preemptions = r.preemptions; Result q = h.execute(rs, dbg); if (q.hash != r.hash || q.violated != r.violated) { if (dbg) { for (auto& l : r.tail) printf(" A %s\n", l.c_str()); for (auto& l : q.tail) printf(" B %s\n", l.c_str()); printf("%s\n", specToJson(h, rs, nullptr, false).c_str()); } printf("REPLAY-DIVERGE index=%ld seed=%llu search=%llu replay=%llu\n", i, (unsigned long long)spec.seed, (unsigned long long)r.hash, (unsigned long long)q.hash); ndiverge++; } }
+    if (getenv("SIM_REPLAYCHECK")) { RunSpec rs = spec; rs.replay = true; rs.decisions = r.decisions; rs.preemptions = r.preemptions; Result q = h.execute(rs, dbg); if (q.hash != r.hash || q.violated != r.violated) { if (dbg) { for (auto& l : r.tail) printf(" A %s\n", l.c_str()); for (auto& l : q.tail) printf(" B %s\n", l.c_str()); printf("%s\n", specToJson(h, rs, nullptr, false).c_str()); } if (getenv("SIM_TRACEDIFF")) sim::traceDumpDiff(); printf("REPLAY-DIVERGE index=%ld seed=%llu search=%llu replay=%llu\n", i, (unsigned long long)spec.seed, (unsigned long long)r.hash, (unsigned long long)q.hash); ndiverge++; } }
     agg.add(r);
     if (samples.size() < 3 && r.nontrivial) { RunSpec ss = spec; samples.push_back(specToJson(h, ss, nullptr, false)); }
     std::vector<std::pair<RunSpec, Result>> viol;
